@@ -19,7 +19,7 @@ from coba.safety import SafeLearner
 from coba.exceptions import CobaException
 from coba.context import CobaContext, NullLogger
 from coba.environments import Batch
-from coba.evaluators import SequentialCB
+from coba.evaluators import SequentialCB, SequentialIGL
 from coba.primitives import is_batch
 
 ID = "C15"
@@ -34,6 +34,8 @@ RULE = ("case = a grid cell (format in A/AP/PM/{'action'}/{'action_prob'}/{'pmf'
         "per-row answer has two elements, or the batch is square (batch size == answer width), or the actions contain 0/1; "
         "distinct = distinct canonical JSON of the case")
 ASSUMPTIONS = [
+    "SafeLearner decides per method whether a learner understands batches: in the fallback shape the double refuses batches in predict and learn, in predict only, or in learn only; a method that takes batches must get one call per batch, a refusing one one call per row",
+    "evaluator sub-check: a quarter of the cases go through SequentialIGL(seed=s) over un-batched grounded interactions (it wraps its own SequentialCB): its PMF draws must be a function of its own seed as well; RejectionCB is not covered (its seed drives rejection sampling; it predicts only for ope='dm'/'dr', which need VowpalWabbit)",
     "action sets have no duplicates, except (DUPLICATE_MEMBERS) PMF cells over list / sparse-dict actions, which sometimes offer two equal members as distinct objects: the reported probability must then be the mass at the drawn position when the returned object identifies it, and otherwise the non-zero mass of some equal member",
     "string actions include two-character members whose first character is an offered action as well; per-row kwargs of one row-major batch share their keys but not their insertion order",
     "evaluator sub-check: learn modes on / ips / off / None on simulated+logged interactions (dr and dm need VowpalWabbit); learn must receive the played action, the learner's probability and its kwargs (on, ips) or the logged triple without kwargs (off)",
@@ -205,6 +207,7 @@ def build(case):
         for call in calls:
             for row in call:
                 acts = list(row["actions"]); acts[1] = copy.deepcopy(acts[0]); row["actions"] = acts
+    plan["fallback_kind"] = ["both", "predict", "learn"][nx(3)]
     return plan
 
 # ----------------------------------------------------------------------------------------- which answers need hints
@@ -221,6 +224,11 @@ class FmtLearner:
     distinct) or by the call counter (single shape), so SafeLearner's layout probe gets a consistent answer."""
     def __init__(self, cell, plan, batch_ok):
         self.cell, self.batch_ok = cell, batch_ok
+        # which methods take batches: both or none, except for the fallback shape where a learner may refuse batches in
+        # predict only, in learn only, or in both (SafeLearner decides per method)
+        kind = plan.get("fallback_kind", "both") if (cell["shape"] == "fallback" and not batch_ok) else "both"
+        self.pred_ok = batch_ok or kind == "learn"       # 'learn': only learn refuses batches
+        self.learn_ok = batch_ok or kind == "predict"    # 'predict': only predict refuses batches
         self.kwtype = plan.get("kwtype", "dict")
         # a batch-aware double is either dual-mode or batch-only (it then refuses single un-batched rows)
         self.batch_only = bool(batch_ok and cell["shape"] in ("row", "col") and plan.get("batch_only"))
@@ -255,7 +263,7 @@ class FmtLearner:
 
     def predict(self, context, actions):
         batched = is_batch(context) or is_batch(actions)
-        if batched and not self.batch_ok:
+        if batched and not self.pred_ok:
             raise NoBatch("this learner does not understand batches")
         nrows = (len(actions) if is_batch(actions) else len(context)) if batched else None
         self.pcalls.append(nrows)
@@ -299,7 +307,7 @@ class FmtLearner:
     def learn(self, context, action, reward, probability, **kwargs):
         self.learn_calls += 1
         if is_batch(context) or is_batch(action) or is_batch(reward):
-            if not self.batch_ok:
+            if not self.learn_ok:
                 raise NoBatch("this learner does not understand batches")
             nrows = len(reward)
             self.lcalls.append(nrows)
@@ -418,6 +426,15 @@ def check_rows(case, rows, learner):
         require(learner.pcalls == [None] * len(rows) and learner.lcalls == [None] * len(rows), "an un-batched learner was not called exactly once per interaction",
                 predict_calls=learner.pcalls, learn_calls=learner.lcalls, cell=cell)
     if cell["shape"] == "fallback":
+        # SafeLearner finds out per method whether batches are understood: a method that takes batches gets them, once per
+        # batch; a method that refuses them is called once per row
+        pc = list(learner.pcalls)
+        if learner.pred_ok and len(pc) == len(sizes) + 1 and pc[1] == 1: del pc[1]
+        require(pc == (sizes if learner.pred_ok else [None] * len(rows)), "predict was not called once per batch (batch-capable predict) / once per row (predict refusing batches)",
+                predict_calls=learner.pcalls, batches=sizes, predict_takes_batches=learner.pred_ok, learn_takes_batches=learner.learn_ok, cell=cell)
+        require(learner.lcalls == (sizes if learner.learn_ok else [None] * len(rows)), "learn was not called once per batch (batch-capable learn) / once per row (learn refusing batches)",
+                learn_calls=learner.lcalls, batches=sizes, predict_takes_batches=learner.pred_ok, learn_takes_batches=learner.learn_ok, cell=cell)
+    if cell["shape"] == "fallback" and not learner.learn_ok:
         require(learner.learn_calls >= len(rows), "a learner that cannot batch must be taught row by row", calls=learner.learn_calls, rows=len(rows))
 
 def triples(rows):
@@ -470,7 +487,7 @@ def run_seeds(case):
         for r in range(b):
             rows.append({"ctx": rid, "actions": base, "choice": 0, "p": 1.0, "pmf": [1 / n] * n, "kw": None, "reward": 0.0}); rid += 1
         calls.append(rows)
-    plan = {"calls": calls, "ctxkind": "int", "batch_only": nx(2) == 1}
+    plan = {"calls": calls, "ctxkind": "int", "batch_only": nx(2) == 1, "fallback_kind": ["both", "predict", "learn"][nx(3)]}
     batch_ok = shape in ("row", "col")
     s1, s2 = case["seed1"], case["seed2"]
     full = {"cell": cell, "ints": case["ints"]}
@@ -496,12 +513,15 @@ EV_ROWS = 24
 
 class PlanEnv:
     """a small simulated environment built from the rows of a plan (fresh objects on every read)"""
-    def __init__(self, rows, batch):
-        self.rows, self.batch = rows, batch
+    def __init__(self, rows, batch, igl=False):
+        self.rows, self.batch, self.igl = rows, batch, igl
     @property
     def params(self):
         return {}
     def read(self):
+        if self.igl:    # grounded interactions: SequentialIGL shows the learner the context (userid, context)
+            return [{"context": r["ctx"][1], "actions": copy.deepcopy(r["actions"]), "rewards": list(r["rwds"]),
+                     "feedbacks": list(reversed(r["rwds"])), "userid": r["ctx"][0]} for r in self.rows]
         its = [{"context": copy.deepcopy(r["ctx"]), "actions": copy.deepcopy(r["actions"]), "rewards": list(r["rwds"]),
                 "action": copy.deepcopy(r["actions"][r["log"]]), "reward": r["log_reward"], "probability": r["log_prob"]} for r in self.rows]
         return Batch(self.batch).filter(its) if self.batch else its
@@ -512,12 +532,13 @@ def ev_plan(case):
     b = 0 if shape == "single" else cell["b"]
     nx = Ints(case["ints"])
     base = action_set(cell["atype"], n, nx)
-    rows = [{"ctx": rid, "actions": base, "choice": 0, "p": 1.0, "pmf": [1 / n] * n, "reward": nx(5) / 4,
+    igl = case.get("evaluator") == "igl"
+    rows = [{"ctx": (rid % 3, rid) if igl else rid, "actions": base, "choice": 0, "p": 1.0, "pmf": [1 / n] * n, "reward": nx(5) / 4,
              "kw": {"k": KWVALS[rid % len(KWVALS)], "m": rid} if case.get("kw") else None,
              "rwds": [((rid + j) % 3) / 2 for j in range(n)],
              "log": (rid * 7 + 1) % n, "log_reward": 0.5 + (rid % 4) / 2, "log_prob": [0.5, 0.25, 1.0, 0.125][rid % 4]} for rid in range(EV_ROWS)]
     calls = [rows[i:i + b] for i in range(0, len(rows), b)] if b else [[r] for r in rows]
-    return rows, b, {"calls": calls, "ctxkind": "int", "batch_only": nx(2) == 1}
+    return rows, b, {"calls": calls, "ctxkind": "int", "batch_only": nx(2) == 1, "fallback_kind": ["both", "predict", "learn"][nx(3)]}
 
 def run_evaluator(case):
     """SequentialCB(seed=s) must hand its seed (or, for None, the experiment seed) to the PMF sampler: 'seed: Determine which
@@ -527,6 +548,7 @@ def run_evaluator(case):
     batch_ok = cell["shape"] in ("row", "col")
     s = case["seed"]
     learn = case.get("learn", "on")
+    igl = case.get("evaluator") == "igl"
     full = {"cell": cell, "ints": case["ints"]}
     saved = dict(CobaContext.store)
 
@@ -535,7 +557,10 @@ def run_evaluator(case):
         if exp_seed is not None: CobaContext.store["experiment_seed"] = exp_seed
         double = learner = FmtLearner(cell, plan, batch_ok)
         if case.get("wrap"): learner = wrapped(learner, cell, plan, case["wrap"])
-        out = list(SequentialCB(record=["action", "probability"], learn=learn, eval="on", seed=s).evaluate(PlanEnv(rows, b), learner))
+        if igl:
+            out = list(SequentialIGL(record=["action", "probability", "reward", "feedback"], seed=s).evaluate(PlanEnv(rows, b, igl=True), learner))
+        else:
+            out = list(SequentialCB(record=["action", "probability"], learn=learn, eval="on", seed=s).evaluate(PlanEnv(rows, b), learner))
         require(len(out) == len(rows), "expected one row per interaction", rows=len(out), interactions=len(rows), cell=cell)
         for r, o in zip(rows, out):
             require(any(eq(o["action"], a) for a in r["actions"]) and eq(o["probability"], 1 / cell["n"]),
@@ -543,6 +568,7 @@ def run_evaluator(case):
         drawn = [[i for i, a in enumerate(r["actions"]) if eq(o["action"], a)][0] for r, o in zip(rows, out)]
         # what learn received, in every learn mode: on/ips teach the played action with the learner's own probability and kwargs,
         # off teaches the logged action/reward/probability without kwargs, None does not teach
+        if igl: return drawn      # what an IGL learner is taught (the feedback) is not C15's subject; the draws are
         require(len(double.learned) == (len(rows) if learn else 0), "learn was not called once per interaction", learn=learn, received=len(double.learned), cell=cell)
         for r, o, i, got in zip(rows, out, drawn, double.learned):
             if learn == "off":
@@ -590,13 +616,17 @@ def evaluator_cases(draw, tier):
         e2 = 5 if e1 is None else e1 + 1          # different experiment seeds (or one absent) behind the same explicit seed
     case = {"cell": cell, "ints": draw(st.lists(st.integers(0, 65535), min_size=8, max_size=8)), "seed": seed, "exp1": e1, "exp2": e2,
             "learn": draw(st.sampled_from(["on", "ips", "off", None, "ips"])), "kw": draw(st.booleans())}
+    if draw(st.integers(0, 3)) == 0:
+        # SequentialIGL(seed=s): un-batched grounded interactions (it builds its own SequentialCB), on-policy only
+        case["evaluator"] = "igl"; case["learn"] = "on"
+        cell["shape"], cell["b"] = "single", 0
     if draw(st.booleans()):
         case["wrap"] = {"inner_seed": draw(st.integers(0, 1000)), "pre": draw(st.integers(0, 3))}
     return case
 
 def ev_classes(case):
     return [f"seed={case['seed']!r}", f"shape={case['cell']['shape']}", "learner already wrapped" if case.get("wrap") else "plain learner",
-            f"learn={case.get('learn', 'on')}", "kwargs" if case.get("kw") else "no kwargs",
+            f"learn={case.get('learn', 'on')}", "kwargs" if case.get("kw") else "no kwargs", "SequentialIGL" if case.get("evaluator") == "igl" else "SequentialCB",
             "experiment_seed:" + ("both" if case["exp1"] is not None and case["exp2"] is not None else "one absent" if (case["exp1"] is None) != (case["exp2"] is None) else "absent")]
 
 # ----------------------------------------------------------------------------------------- generators
@@ -669,6 +699,8 @@ def classes(case):
     if forced_hint(cell["fmt"], cell["atype"], cell["n"], []) != cell["fmt"]: out.append("forced-hint")
     if cell.get("ipmf"): out.append("integer-onehot-pmf")
     if case.get("wrap"): out.append("wrapped-twice")
+    if cell["shape"] == "fallback" and "seed1" not in case and "exp1" not in case:
+        out.append("fallback:" + {"both": "predict+learn refuse batches", "predict": "only predict refuses batches", "learn": "only learn refuses batches"}[build(case)["fallback_kind"]])
     return out
 
 def view(case):
